@@ -137,3 +137,32 @@ Definition ascii_trim_space (s : str) : str := rev (trim_left_space (rev (trim_l
 Definition is_ascii (s : str) : bool := forallb (fun c => c <? 128) s.
 
 Definition no_brackets (s : str) : bool := negb (contains c_lbr s) && negb (contains c_rbr s).
+
+(* ---- miekg/dns v1.1.72: IsFqdn, Fqdn, CanonicalName (bytes; exact for valid UTF-8 input) ----------- *)
+Definition c_bslash : N := 92.  (* '\' *)
+Definition c_pipe : N := 124.   (* '|' *)
+
+Fixpoint count_leading (c : N) (s : str) : nat :=
+  match s with
+  | x :: r => if x =? c then S (count_leading c r) else O
+  | [] => O
+  end.
+
+(* IsFqdn: trailing dot that is not escaped (an even number of backslashes before it) *)
+Definition is_fqdn (s : str) : bool :=
+  if has_suffix1 c_dot s then
+    let t := removelast s in
+    if has_suffix1 c_bslash t then Nat.even (count_leading c_bslash (rev t)) else true
+  else false.
+
+Definition fqdn (s : str) : str := if is_fqdn s then s else s ++ [c_dot].
+
+(* CanonicalName: strings.Map(A-Z -> a-z, Fqdn(s)) *)
+Definition canonical_name (s : str) : str := ascii_lower (fqdn s).
+
+(* control/dns_control.go: DnsController.cacheKey(qname, qtype) = CanonicalName(qname) + itoa(qtype) *)
+Definition cache_key (qname : str) (qtype : N) : str := canonical_name qname ++ itoa qtype.
+
+(* dnsCacheBaseKey: strings.Cut(cacheKey, "|") *)
+Definition base_key (k : str) : str :=
+  match break_at c_pipe k with Some (a, _) => a | None => k end.
